@@ -9,6 +9,8 @@ require (
 	github.com/spf13/pflag v1.0.6
 )
 
+require gopkg.in/yaml.v3 v3.0.1 // indirect
+
 replace github.com/carapace-sh/carapace => /repo
 
 replace github.com/spf13/pflag => github.com/carapace-sh/carapace-pflag v1.0.0
